@@ -30,7 +30,7 @@ def public_task(t, member_ids):
         'succs_in': sorted(repr(p.id) for p in t.successors if id(p) in member_ids),
         'preds_out': sorted(id(p) for p in t.predecessors if id(p) not in member_ids),
         'succs_out': sorted(id(p) for p in t.successors if id(p) not in member_ids),
-        'attrs': tuple(sorted((k, repr(v)) for k, v in t.to_dict().items())),
+        'attrs': graph.public_fields(t, graph.CUSTOM_NAMES),
         'estimate': t.estimate, 'spent': t.spent,
     }
 
@@ -39,7 +39,7 @@ def describe(w):
     ts = list(w.tasks)
     ids = {id(t) for t in ts}
     return [public_task(t, ids) for t in ts], [t.id for t in w.roots], \
-        tuple(sorted((k, repr(v)) for k, v in w.__dict__.items() if not k.startswith('_')))
+        tuple(sorted((k, repr(v)) for k, v in w.__dict__.items() if not k.startswith('_') and k in graph.CUSTOM_NAMES))
 
 
 def expected_subtree(w, sel):
@@ -196,7 +196,7 @@ def _outside(u, mid, ignore_unknown=False):
         if id(t) in mid:
             continue
         known = set(u.lab)
-        out.append((u.L(t), tuple(sorted((k, repr(v)) for k, v in t.to_dict().items())),
+        out.append((u.L(t), graph.public_fields(t, graph.CUSTOM_NAMES),
                     tuple(u.L(p) for p in t.predecessors if id(p) in known), tuple(u.L(p) for p in t.successors if id(p) in known),
                     u.L(t.parent), tuple(u.L(x) for x in t.children), u.WL(t.wbs)))
     return out
